@@ -213,10 +213,23 @@ class TaskRunner:
         ).union(set(target_list))
 
         # Lookup actual targets:
+        # Order the targets such that dependencies come first. Sorting with
+        # the 'depends on' relation does not work, since that is only a
+        # partial order.
+        ordered_names = []
+
+        def visit(target_name):
+            if target_name not in ordered_names:
+                for dep in sorted(project.get_target(target_name).dependencies):
+                    visit(dep)
+                ordered_names.append(target_name)
+
+        for target_name in sorted(target_list):
+            visit(target_name)
+
         target_list = [
-            project.get_target(target_name) for target_name in target_list
+            project.get_target(target_name) for target_name in ordered_names
         ]
-        target_list.sort()
 
         self.logger.info(f"Target sequence: {target_list}")
 
